@@ -3,7 +3,8 @@ From Bfe Require Import lib.Val lib.Bytes model.Cors.
 Import ListNotations.
 Open Scope Z_scope.
 
-(* input : [rule req rsp handler]
+(* input : [rules req rsp handler]
+     rules = [[match rule] ...]  (match: does the rule's condition hold for this request)
      rule = [origins:LB cred expose:LB methods:LB headers:LB maxage:(opt Z)]
      req  = [method:B originValues:LB acrmValues:LB hasRules]
      rsp  = [vary acao acac acam acah acma aceh] (LB each)
@@ -40,10 +41,17 @@ Definition dec_hdrs (v : val) : option hdrs :=
 Definition enc_hdrs (h : hdrs) : val :=
   VL [vLB (h_vary h); vLB (h_acao h); vLB (h_acac h); vLB (h_acam h); vLB (h_acah h); vLB (h_acma h); vLB (h_aceh h)].
 
-Definition dec_in (v : val) : option (rule * req * hdrs * Z) :=
+Definition dec_mrule (v : val) : option (bool * rule) :=
+  match v with
+  | VL [VZ m; r] => match dec_rule r with Some r' => Some (negb (m =? 0), r') | None => None end
+  | _ => None
+  end.
+Definition dec_rules (v : val) : option rules :=
+  match v with VL l => all_some (map dec_mrule l) | _ => None end.
+Definition dec_in (v : val) : option (rules * req * hdrs * Z) :=
   match v with
   | VL [r; q; h; VZ k] =>
-    match dec_rule r, dec_req q, dec_hdrs h with
+    match dec_rules r, dec_req q, dec_hdrs h with
     | Some r', Some q', Some h' => if (k =? 0) || (k =? 1) then Some (r', q', h', k) else None
     | _, _, _ => None
     end
@@ -55,7 +63,7 @@ Definition run_C52 (i : val) : val :=
   match dec_in i with
   | None => VErr 0
   | Some (r, q, h, k) =>
-    if negb (rule_ok r) then VErr 1
+    if negb (rules_ok r) then VErr 1
     else if k =? 0 then VL [VZ 0; enc_hdrs (cors_handler r q h)]
     else match preflight_handler r q with
          | None => VL [VZ 0; VL []]
@@ -71,15 +79,17 @@ Definition prop_C52 (i o : val) : bool :=
   match dec_in i with
   | None => false
   | Some (r, q, h, k) =>
-    if negb (rule_ok r) then val_eqb o (VErr 1)
+    if negb (rules_ok r) then val_eqb o (VErr 1)
     else match o with
          | VL [VZ ret; VL []] => (ret =? 0) && (k =? 1)
          | VL [VZ ret; ho] =>
            match dec_hdrs ho with
            | None => false
            | Some after =>
-             if k =? 0 then (ret =? 0) && cors_spec r q h after
-             else (ret =? 1) && is_preflight q && cors_spec r q empty_hdrs after
+             if k =? 0 then (ret =? 0) && cors_spec_rules r q h after
+             else (ret =? 1) && is_preflight q && q_has_rules q
+                  && match find_rule r with Some _ => true | None => false end
+                  && cors_spec_rules r q empty_hdrs after
            end
          | _ => false
          end
